@@ -28,7 +28,9 @@ PROP = dict(
               'Fit.C09.C09_same_bytes_batch', 'Fit.C09.C09_kinds_agree', 'Fit.C09.C09_stream_equals_batch',
               'Fit.C09.C09_same_bytes_stream', 'Fit.C09.C09_same_bytes', 'Fit.C09.C09_validation_order',
               'Fit.C09.C09_caveat_writeAt_foreign_witness', 'Fit.C09.C09_caveat_not_at_end_witness',
-              'Fit.C09.C09_caveat_writeAt_not_at_end_witness', 'Fit.C09.C09_caveat_append_mode_witness'],
+              'Fit.C09.C09_caveat_writeAt_not_at_end_witness', 'Fit.C09.C09_caveat_append_mode_witness',
+              # EncodeWithContext: a context that is never cancelled = Encode; the encoder left on io.Discard (KF-C09-ctx-discard)
+              'Fit.C09.C09_ctx_equals_plain', 'Fit.C09.C09_ctx_discard_witness'],
     families=[dict(name='enc-writers', prop=True)],
     extra=_extra,
     trusted_base=STD_TRUST + [
@@ -41,6 +43,6 @@ PROP = dict(
 
 TEXT = dict(
     technique='Lean 4 proof by refinement: model of the destination (content, position, Write/WriteAt/Seek), of bufio.Writer and the writerAt/writeSeeker wrappers, of the three output paths of encoder.go (early check with dry run, seek rewrite, write-at rewrite) and of stream.go; every path is proved to leave d0 ++ Wire.encodeChain (the wire-level encoder of C01/C02) — contracts proved for arbitrary fault schedules and specialised to the healthy destination; differential tie incl. destination operation logs; cross-configuration comparison on the implementation',
-    text='C09_same_bytes_batch: for every writer kind, every buffer size (0 = unbuffered), every chain and every destination already holding d0, Encode succeeds and the destination holds exactly d0 ++ encodeChain o fits (an expression free of kind, buffer size and the caller\'s header data sizes); C09_stream_equals_batch: under EVERY fault schedule the stream encoder issues exactly the destination operations of Encode of the same messages (as pinned and as repaired); C09_same_bytes_stream / C09_same_bytes: stream and batch leave identical bytes; C09_bufio_transparent / _eq_direct: any chunking through any buffer size then Flush = direct writes; C09_dryrun_equals_run: the dry run computes exactly the data size the second pass writes and restores the compressed-timestamp field; C09_validation_order: validating up front (batch) and per message (stream) feed encodeMessage identically, for any validator. Tie: family enc-writers (single runs with operation logs; cross-configuration ops over 91 configurations).',
+    text='C09_ctx_equals_plain: EncodeWithContext with a context that is never cancelled leaves the same encoder and destination and returns the same result as Encode, for every validator, fault schedule, option set and encoder state (cancellation points are modelled: FitModel/Writer.lean Ctx / encodeCtxV; tied by m=c runs with cx=i.k: the context of call i is cancelled after k polls, every k); C09_ctx_discard_witness: finding KF-C09-ctx-discard (a cancelled dry run leaves the encoder on io.Discard: the next Encode reports success and writes nothing). C09_same_bytes_batch: for every writer kind, every buffer size (0 = unbuffered), every chain and every destination already holding d0, Encode succeeds and the destination holds exactly d0 ++ encodeChain o fits (an expression free of kind, buffer size and the caller\'s header data sizes); C09_stream_equals_batch: under EVERY fault schedule the stream encoder issues exactly the destination operations of Encode of the same messages (as pinned and as repaired); C09_same_bytes_stream / C09_same_bytes: stream and batch leave identical bytes; C09_bufio_transparent / _eq_direct: any chunking through any buffer size then Flush = direct writes; C09_dryrun_equals_run: the dry run computes exactly the data size the second pass writes and restores the compressed-timestamp field; C09_validation_order: validating up front (batch) and per message (stream) feed encodeMessage identically, for any validator. Tie: family enc-writers (single runs with operation logs; cross-configuration ops over 91 configurations).',
     note='Proved about the model; tied by differential testing of results, operation logs and contents on the four destination kinds. Assumes the destination is positioned at its end and — for write-at destinations — holds only what this encoder wrote (both documented caveats of encoder.New). Both assumptions are shown NECESSARY by kernel-evaluated witnesses (C09_caveat_writeAt_foreign_witness: header rewrite lands on the first 14 foreign bytes of a pre-filled write-at destination given to a new encoder; C09_caveat_not_at_end_witness / C09_caveat_writeAt_not_at_end_witness: a destination positioned before its end is overwritten, and a write-at rewrite then lands inside the records) ; C09_caveat_append_mode_witness: on an O_APPEND file the seek rewrite appends the final header — every call still reports success; the family runs such destinations too (pre= with a new write-at encoder, pos=<n>, ap=1): model and code agree on what is written, the property predicate is n/a there.',
 )
